@@ -222,3 +222,15 @@ def c06_xla_integer_literal_division(site, w):
     except Exception:
         return False
     return got == float(int(want))  # the truncated quotient
+
+
+def c08_unsized_constant_operand(site, w):
+    """a constant created without a like-operand is typed by the context's unsized float / integer symbol: Type.max ignores the unsized type, the
+    NumPy target prints the constant as numpy.float64(..) / numpy.int64(..), so the node's run-time dtype follows NumPy's promotion with a 64-bit scalar
+    (float32 * constant(2.5) is float64) while the static type is the other operand's"""
+    if not site.startswith("static-vs-runtime:"):
+        return False
+    ots = w.get("operand_types", [])
+    if not any(t in ("float", "integer", "complex") for t in ots):
+        return False
+    return "_float_value" in w.get("node", "") or "_integer_value" in w.get("node", "") or "_complex_value" in w.get("node", "")
